@@ -69,7 +69,7 @@ func (i *Inst) RunHostile(s *HsScript, tw *TraceWriter, rng *rand.Rand) error {
 	cid := ""
 	switch s.Ep {
 	case "tunnel":
-		phases := map[string]int{"init": 0, "hs": 1, "created": 2, "authorized": 3, "channel": 4, "stalled": 4}
+		phases := map[string]int{"init": 0, "hs": 1, "created": 2, "authorized": 3, "channel": 4, "stalled": 4, "streaming": 4}
 		be := i.Backends["A"]
 		nb0 := be.NConns()
 		t, _, err := i.setup(s.Script, rng, phases[s.Phase])
@@ -85,6 +85,38 @@ func (i *Inst) RunHostile(s *HsScript, tw *TraceWriter, rng *rand.Rand) error {
 				return serr
 			}
 			defer stop()
+		}
+		if err == nil && s.Phase == "streaming" {
+			// the host streams and the client reads it all: the relay goroutine is writing to the client all the time
+			// while the packet loop handles the input (whatever the loop sends back shares the connection with it)
+			if !be.WaitConn(nb0+1, 5*time.Second) {
+				t.Close()
+				return fmt.Errorf("host saw no connection")
+			}
+			bc := be.Conn(nb0)
+			stopStream := make(chan struct{})
+			go func() {
+				buf := make([]byte, 8192)
+				for {
+					select {
+					case <-stopStream:
+						return
+					default:
+					}
+					if bc.Send(buf) != nil {
+						return
+					}
+				}
+			}()
+			go func() {
+				for {
+					if _, e := t.Recv(2 * time.Second); e != nil {
+						return
+					}
+				}
+			}()
+			defer close(stopStream)
+			time.Sleep(20 * time.Millisecond)
 		}
 		if err != nil {
 			// the set-up itself failed: whether that is a fault is decided from the hooks / stderr below
@@ -140,6 +172,15 @@ func (i *Inst) RunHostile(s *HsScript, tw *TraceWriter, rng *rand.Rand) error {
 			for _, n := range []int{0xFFFF, 0, 0xFFFE, 1} {
 				raw = append(raw, tsgu.Data(uint16(n), randBytes(rng, n))...)
 			}
+		case "keepalive-flood":
+			// thousands of (valid) keepalive packets, several per write
+			for k := 0; k < 4000; k++ {
+				raw = append(raw, tsgu.Packet(tsgu.PktKeepalive, nil)...)
+			}
+		case "data-flood":
+			for k := 0; k < 4000; k++ {
+				raw = append(raw, tsgu.Data(3, []byte{1, 2, 3})...)
+			}
 		case "random-bytes":
 			raw = randBytes(rng, 1+rng.Intn(300))
 		case "text-message":
@@ -152,6 +193,13 @@ func (i *Inst) RunHostile(s *HsScript, tw *TraceWriter, rng *rand.Rand) error {
 		}
 		if textMsg && t.WS != nil {
 			t.WS.WriteRawFrame(1, true, raw)
+		} else if strings.HasSuffix(s.Cls, "-flood") {
+			for off := 0; off < len(raw); off += 800 {
+				if t.SendRaw(raw[off:min(off+800, len(raw))]) != nil {
+					break
+				}
+			}
+			time.Sleep(300 * time.Millisecond)
 		} else {
 			t.SendRaw(raw)
 		}
